@@ -101,7 +101,8 @@ def dupUnderCount (progs : List (List Op)) : Bool :=
       | .qCount k => (acc.1, acc.2 || acc.1.any (fun e => e.1 == k && pIds.contains e.2))
       | _ => acc) ([], false)).2)
 
-def cls (r : Req) : String := if dupUnderCount r.progs then "session_fact_duplicates_persistent_fact_under_count" else "unclassified"
+/-- no known defect class is left for C10 (the duplicate-under-count class is repaired) -/
+def cls (_r : Req) : String := "unclassified"
 
 def parseRows (s : String) : Option (List Nat) :=
   match s.toList with
